@@ -4,6 +4,7 @@ CONSTANTS
   WriteLines <- NoWL
   MaxReads = 4
   MaxWrites = 0
+  MaxConnects = 1
   WithFaults = FALSE
 VIEW View
 INVARIANT ChunkingIndependent
